@@ -2291,9 +2291,9 @@ class Problem(object, metaclass=ProblemMetaclass):
 
         if case_is_dict:
             # case data comes from list_inputs/list_outputs, keyed on absolute pathname
-            # we need it to be keyed on promoted name
+            # inputs are set by absolute name, outputs need to be keyed on promoted name
             if 'inputs' in case:
-                inputs = {meta['prom_name']: meta for meta in case['inputs'].values()}
+                inputs = case['inputs']
             else:
                 inputs = None
             if 'outputs' in case:
